@@ -38,7 +38,9 @@ Record cfg := mkCfg {
   c_maxop : Z;
   c_pause : Z;
   c_maxconc : nat;       (* V2 MaxConcurrentBatches; 0 = no limit *)
-  c_watchers : list wcfg
+  c_watchers : list wcfg;
+  c_busy_fd : Z;         (* a listener keeps the loop busy for this long inside the flush-done event (v2), ns; <= 0: not *)
+  c_busy_audit : Z       (* ... inside the audit-skip / audit-pass / audit-fail event *)
 }.
 
 Definition ms : Z := 1000000.
@@ -136,6 +138,7 @@ Inductive loopst :=
 | LNotStarted
 | LIdle                  (* at the select *)
 | LSleeping (until : Z)  (* in time.Sleep(PauseTime) *)
+| LBusy (until : Z)      (* inside a listener that takes its time (user code called from Emit) *)
 | LAuditPending          (* audit saw "buffer empty and idle long enough", not yet confirmed *)
 | LCycle                 (* walking the buffer *)
 | LCycleEnd              (* raising the remaining partial batches *)
@@ -338,6 +341,7 @@ Inductive label :=
 | ILoopShutdown
 | ILoopPause
 | ILoopResume
+| ILoopUnbusy
 | ILoopAuditCheck
 | ILoopAuditConfirm
 | ILoopCap
@@ -509,6 +513,15 @@ Definition do_tick (c : cfg) (s : state) (k : tick) : option (state * list obs) 
 Definition loop_idle (s : state) : bool :=
   match loop s with LIdle => true | _ => false end.
 
+(* where the loop is after raising an event whose listener keeps it busy for d *)
+Definition after_event (s : state) (d : Z) : loopst := if 0 <? d then LBusy (now s + d) else LIdle.
+
+Definition do_loop_unbusy (s : state) : option (state * list obs) :=
+  match loop s with
+  | LBusy t => if t =? now s then Some (s <| loop := LIdle |>, []) else None
+  | _ => None
+  end.
+
 Definition do_loop_shutdown (c : cfg) (s : state) : option (state * list obs) :=
   if loop_idle s && stop_req s then
     let s1 := s <| loop := LExited |> <| tickers_on := false |> <| shut := true |>
@@ -553,7 +566,7 @@ Definition do_audit_check (c : cfg) (s : state) : option (state * list obs) :=
     let s1 := s <| tk_audit := mkT (t_next (tk_audit s)) false |> in
     if (length (buffer s) =? 0)%nat && idle_long_enough c s then
       Some (s1 <| loop := LAuditPending |>, [])
-    else Some (s1, [OEvAuditSkip])
+    else Some (s1 <| loop := after_event s (c_busy_audit c) |>, [OEvAuditSkip])
   else None.
 
 Definition do_audit_confirm (c : cfg) (s : state) : option (state * list obs) :=
@@ -561,7 +574,7 @@ Definition do_audit_confirm (c : cfg) (s : state) : option (state * list obs) :=
   | LAuditPending =>
       let tbad := 0 <? target s in
       let ibad := match c_gen c with V2 => (0 <? tokens s)%nat | V1 => false end in
-      let s1 := s <| loop := LIdle |> <| target := 0 |>
+      let s1 := s <| loop := after_event s (c_busy_audit c) |> <| target := 0 |>
                   <| tokens := match c_gen c with V2 => 0%nat | V1 => tokens s end |> in
       Some (s1, [if tbad || ibad then OEvAuditFail tbad ibad else OEvAuditPass])
   | _ => None
@@ -701,7 +714,8 @@ Definition do_cycle_end (c : cfg) (s : state) : option (state * list obs) :=
   match loop s with
   | LCycleEnd =>
       if open_empty (cy_open s) then
-        Some (s <| loop := LIdle |> <| cy_open := [] |> <| cy_cur := None |>,
+        Some (s <| loop := match c_gen c with V2 => after_event s (c_busy_fd c) | V1 => LIdle end |>
+                <| cy_open := [] |> <| cy_cur := None |>,
               match c_gen c with V2 => [OEvFlushDone] | V1 => [] end)
       else None
   | _ => None
@@ -784,7 +798,7 @@ Definition next_due (s : state) : option Z :=
   let d0 := if tickers_on s
             then Some (Z.min (t_next (tk_flush s)) (Z.min (t_next (tk_cap s)) (t_next (tk_audit s))))
             else None in
-  let d1 := match loop s with LSleeping t => zmin_opt d0 t | _ => d0 end in
+  let d1 := match loop s with LSleeping t | LBusy t => zmin_opt d0 t | _ => d0 end in
   fold_left batch_deadlines (batches s) d1.
 
 (* all internal labels that could possibly be enabled in s *)
@@ -792,7 +806,7 @@ Definition candidates (c : cfg) (s : state) : list label :=
   map (fun p => IEnqInsert (o_id (fst p))) (counted s)
   ++ map (fun o => IEnqRetry (o_id o)) (woken s)
   ++ [IStopRet; ITick TkFlush; ITick TkCap; ITick TkAudit;
-      ILoopShutdown; ILoopPause; ILoopResume; ILoopAuditCheck; ILoopAuditConfirm; ILoopCap;
+      ILoopShutdown; ILoopPause; ILoopResume; ILoopUnbusy; ILoopAuditCheck; ILoopAuditConfirm; ILoopCap;
       ILoopFlushTick; ICycleBegin; ICycleVisit; ICycleEnd]
   ++ map (fun p => ICycleRaise (fst p)) (cy_open s)
   ++ flat_map (fun b => [IBatchStart (b_id b); ICbEnter (b_id b); ICbReturn (b_id b); IBatchDone (b_id b)]) (batches s).
@@ -822,6 +836,7 @@ Definition step_notime (c : cfg) (s : state) (l : label) : option (state * list 
   | ILoopShutdown => do_loop_shutdown c s
   | ILoopPause => do_loop_pause c s
   | ILoopResume => do_loop_resume s
+  | ILoopUnbusy => do_loop_unbusy s
   | ILoopAuditCheck => do_audit_check c s
   | ILoopAuditConfirm => do_audit_confirm c s
   | ILoopCap => do_loop_cap c s
